@@ -59,6 +59,14 @@ def bunched_case(draw, big=False):
 
 
 @st.composite
+def fully_heralded_case(draw):
+    prog = draw(gen.fully_heralded_program())
+    prog, _ = gen.limit_loss(prog, 2)
+    return {"prog": prog, "inputs": [[]], "single": draw(st.booleans()),
+            "outputs": draw(st.sampled_from([None, [[]]]))}
+
+
+@st.composite
 def live_case(draw):
     """Simulator created first, circuit edited afterwards."""
     base = draw(sim_case())
@@ -215,6 +223,7 @@ def subs(tier):
     return [
         Sub("amplitudes", run_sim, strategy=sim_case(big=not q), examples=120 if q else 2000),
         Sub("bunched", run_sim, strategy=bunched_case(big=not q), examples=60 if q else 1000),
+        Sub("fully-heralded", run_sim, strategy=fully_heralded_case(), examples=30 if q else 400),
         Sub("live-circuit", run_live, strategy=live_case(), examples=60 if q else 800),
         Sub("rejects", run_bad, strategy=bad_case(), examples=60 if q else 600),
     ]
